@@ -21,7 +21,8 @@ EXTENDS Integers, Sequences, TLC
 
 Kinds == {"ll", "merc", "utm", "lcc"}
 (* sign of the first and the second coordinate under an +axis value (w and s negate, whatever their position) *)
-AxisSign == [enu |-> <<1, 1>>, wnu |-> <<-1, 1>>, esu |-> <<1, -1>>, wsu |-> <<-1, -1>>, neu |-> <<1, 1>>, swu |-> <<-1, -1>>, nwu |-> <<1, -1>>]
+AxisSign == [enu |-> <<1, 1>>, wnu |-> <<-1, 1>>, esu |-> <<1, -1>>, wsu |-> <<-1, -1>>, neu |-> <<1, 1>>, swu |-> <<-1, -1>>, nwu |-> <<1, -1>>,
+             une |-> <<1, 1>>, wdn |-> <<-1, 1>>, dse |-> <<1, -1>>]        \* (a height letter in the first or second place leaves that coordinate alone)
 AllAxes == DOMAIN AxisSign
 AllExps == {-1, 0, 1, 3}                      \* +to_meter = 2^e
 
